@@ -717,6 +717,13 @@ def run(run):
         attrcap(run, fx)
     except AnalysisBroken as ex:
         run.broken('LOADERSIB', 'box records: two rectangles per sub-box at every site', str(ex))
+    from .util import share as _share
+    if not getattr(run, '_sharing', False):
+        run._sharing = True
+        try:
+            _share(run, 'c16', ['TABLETS'], 'FILESIB')        # a table is handed back exactly once on either kind of face (file faces free it, callback faces may not) (shared with C16)
+        finally:
+            run._sharing = False
     lazyaccess(run, fx)
     filesib(run, fx)
     fileexact(run, fx)
